@@ -31,6 +31,8 @@ THEOREMS = [
     "O2P.Jq.skip_independent",
     "O2P.Jq.source_invalid_doc",
     "O2P.Jq.compile_correct",
+    "O2P.Jq.compile_wf",
+    "O2P.Jq.compile_correct_all",
 ]
 
 RS, SS, SP = "resource_spans", "scope_spans", "spans"
